@@ -252,7 +252,7 @@ def main(tier, seed):
     bases = [0, (1 << 32) - 5, (1 << 63) - 5]
     tasks = [(n, b) for b in bases] + [(n, U64 - 1 - n)] + [(8, b) for b in bases] + [(8, U64 - 1 - 8)]
     ev.merge(run_pool(work_bfs, tasks))
-    ncases = 30000 if tier == "quick" else 1500000
+    ncases = 30000 if tier == "quick" else 600000
     rc, out, err = run_hcov(["random", "12"], {"RC_PARAMS": "seed=%d max_success=%d" % (seed + 1, ncases)})
     kv = dict(re.findall(r"^([A-Z]+) (\d+)$", out, re.M))
     if "Falsifiable" in out:
